@@ -5,6 +5,7 @@ package main
 
 import (
 	"fmt"
+	"go/token"
 	"go/types"
 	"strings"
 
@@ -202,5 +203,107 @@ func (m *machine) registerEnvReplacements() {
 		eb + "Name":    "BusName",
 	} {
 		m.replace(name, repl)
+	}
+}
+
+// sync/atomic: the primitive functions operate on the pointed-to cell in one
+// step of the cooperative scheduler (they are visible operations, i.e.
+// preemption points under schedule exploration).  The typed wrappers
+// (atomic.Bool, Int32, Int64, Uint32, Uint64) are interpreted from source and
+// end up here; atomic.Value and atomic.Pointer[T] are modelled on their methods.
+func (m *machine) registerAtomicIntrinsics() {
+	in := m.intrinsics
+	a := "sync/atomic."
+	elem := func(fn *ssa.Function) types.Type {
+		return fn.Signature.Params().At(0).Type().Underlying().(*types.Pointer).Elem()
+	}
+	for _, ty := range []string{"Int32", "Int64", "Uint32", "Uint64", "Uintptr", "Pointer"} {
+		in[a+"Load"+ty] = func(fr *frame, fn *ssa.Function, args []value) value {
+			fr.i.visible(fr, "atomic")
+			return *fr.ptr(args[0])
+		}
+		in[a+"Store"+ty] = func(fr *frame, fn *ssa.Function, args []value) value {
+			fr.i.visible(fr, "atomic")
+			*fr.ptr(args[0]) = args[1]
+			return nil
+		}
+		in[a+"Swap"+ty] = func(fr *frame, fn *ssa.Function, args []value) value {
+			fr.i.visible(fr, "atomic")
+			p := fr.ptr(args[0])
+			old := *p
+			*p = args[1]
+			return old
+		}
+		in[a+"CompareAndSwap"+ty] = func(fr *frame, fn *ssa.Function, args []value) value {
+			fr.i.visible(fr, "atomic")
+			p := fr.ptr(args[0])
+			t := elem(fn)
+			eq := fr.binop(token.EQL, t, t, *p, args[1])
+			ok := false
+			switch e := eq.(type) {
+			case bool:
+				ok = e
+			case sym:
+				ok = fr.i.decideBool(e.t, "atomic-cas")
+			}
+			if ok {
+				*p = args[2]
+			}
+			return ok
+		}
+		if ty != "Pointer" {
+			in[a+"Add"+ty] = func(fr *frame, fn *ssa.Function, args []value) value {
+				fr.i.visible(fr, "atomic")
+				p := fr.ptr(args[0])
+				t := elem(fn)
+				*p = fr.binop(token.ADD, t, t, *p, args[1])
+				return *p
+			}
+		}
+	}
+	for _, ty := range []string{"Int32", "Int64", "Uint32", "Uint64", "Uintptr"} {
+		for name, op := range map[string]token.Token{"And": token.AND, "Or": token.OR} {
+			op := op
+			in[a+name+ty] = func(fr *frame, fn *ssa.Function, args []value) value {
+				fr.i.visible(fr, "atomic")
+				p := fr.ptr(args[0])
+				t := elem(fn)
+				old := *p
+				*p = fr.binop(op, t, t, *p, args[1])
+				return old
+			}
+		}
+	}
+	in["internal/bytealg.MakeNoZero"] = func(fr *frame, fn *ssa.Function, args []value) value {
+		n := int(fr.concInt(args[0], "MakeNoZero"))
+		out := make([]value, n)
+		for k := range out {
+			out[k] = uint8(0)
+		}
+		return out
+	}
+	in["internal/abi.NoEscape"] = func(fr *frame, fn *ssa.Function, args []value) value { return args[0] }
+	// atomic.Value: the cell holds the stored interface value in a side table
+	in["(*sync/atomic.Value).Load"] = func(fr *frame, fn *ssa.Function, args []value) value {
+		fr.i.visible(fr, "atomic")
+		if v, ok := fr.i.handles[fr.ptr(args[0])]; ok {
+			return v
+		}
+		return iface{}
+	}
+	in["(*sync/atomic.Value).Store"] = func(fr *frame, fn *ssa.Function, args []value) value {
+		fr.i.visible(fr, "atomic")
+		fr.i.handles[fr.ptr(args[0])] = args[1].(iface)
+		return nil
+	}
+	in["(*sync/atomic.Value).Swap"] = func(fr *frame, fn *ssa.Function, args []value) value {
+		fr.i.visible(fr, "atomic")
+		p := fr.ptr(args[0])
+		old, ok := fr.i.handles[p]
+		fr.i.handles[p] = args[1].(iface)
+		if !ok {
+			return iface{}
+		}
+		return old
 	}
 }
